@@ -12,8 +12,8 @@ from sim.procs import template_init
 NAMES = ["a", "b", "c", "d"]
 MOD_KINDS = ["sig", "port_i", "port_o", "port_io", "port_n", "inst", "arr", "pair", "bun", "bunport"]
 BUN_KINDS = ["sig", "port_i", "bun"]
-MOD_BANNED = ["ports", "signals", "instances", "instarrays", "instbundles", "bundles", "literals", "props", "namespace", "add", "get"]
-BUN_BANNED = ["signals", "bundles", "namespace"]
+MOD_BANNED = ["ports", "signals", "instances", "instarrays", "instbundles", "bundles", "literals", "props", "namespace", "add", "get", "bundle_ports"]
+BUN_BANNED = ["signals", "bundles", "namespace", "add", "get", "props"]
 BAD_VALUES = ["int", "str", "module", "generator", "primcall", "extcall", "none", "list"]
 
 
@@ -44,7 +44,11 @@ def generate(seed, mode="c18", opts=None):
         elif k in ("reset", "readd"):
             ops.append([k, name])
         elif k == "banned":
-            ops.append(["banned", ch.pick(banned, "bname"), kind, width])
+            # reserved names, through every door: assignment, add() of a named value, add(name=)
+            ops.append(["banned", ch.pick(banned, "bname"), kind, width, ch.pick(["set", "add", "add_named"], "bvia")])
+            if ch.chance(1, 4):
+                # a name that attribute access never looks up in the namespace
+                ops.append(["underscore", ch.pick(["_x", "_tmp", "__a"], "uname"), kind, width])
         elif k == "badval":
             ops.append(["badval", name, ch.pick(BAD_VALUES, "bad")])
         elif k == "del":
@@ -234,17 +238,34 @@ def execute(scn):
                 probe("elaborated_mid_history")
                 continue
             elif kind == "banned":
-                setattr(obj, op[1], make_value(h, env, op[2], op[3]))
-                fail("banned-accepted", f"op {k}: assignment to reserved name {op[1]!r} was accepted")
+                via = op[4] if len(op) > 4 else "set"
+                val = make_value(h, env, op[2], op[3])
+                if via == "set":
+                    setattr(obj, op[1], val)
+                elif via == "add":
+                    val.name = op[1]
+                    obj.add(val)
+                else:
+                    obj.add(val, name=op[1])
+                fail("banned-accepted", f"op {k}: reserved name {op[1]!r} was accepted ({via})")
+            elif kind == "underscore":
+                # add() under a name that attribute access does not resolve: refused, or else coherent
+                val = make_value(h, env, op[2], op[3])
+                obj.add(val, name=op[1])
+                probe("underscore_name_accepted")
+                try:
+                    same = getattr(obj, op[1]) is val
+                except AttributeError:
+                    same = False
+                if obj.get(op[1]) is not val or not same:
+                    fail("views", f"op {k}: add(name={op[1]!r}) was accepted, but get() and attribute access do not both return the object")
+                break
             elif kind == "badval":
                 setattr(obj, op[1], bad_values[op[2]])
                 fail("badval-accepted", f"op {k}: non-HDL value ({op[2]}) was accepted as attribute {op[1]!r}")
             elif kind == "del":
-                if target == "module":
-                    delattr(obj, op[1])
-                    fail("del-accepted", f"op {k}: attribute deletion was accepted")
-                else:
-                    continue
+                delattr(obj, op[1] if op[1] in model else ("signals" if k % 2 else op[1]))
+                fail("del-accepted", f"op {k}: attribute deletion was accepted")
             elif kind == "subclass":
                 base = h.Module if target == "module" else h.Bundle
                 type("Sub", (base,), {})
